@@ -39,6 +39,7 @@ type c14Op struct {
 	Chal    string // cur | prev | other | zeros | empty
 	Garbage string
 	Domain  string // the domain name the client puts into its authenticate message (and into its key)
+	Secs    int    // clock: seconds (0 = 61, past the context lifetime; 31 = inside it)
 }
 
 func (o c14Op) String() string {
@@ -56,6 +57,9 @@ func (o c14Op) String() string {
 		return fmt.Sprintf("auth(s%d,%s,key=%s,pw=%q,chal=%s)", o.Sess, o.Claimed, k, o.Pw, o.Chal)
 	case "garbage":
 		return fmt.Sprintf("garbage(s%d,%s)", o.Sess, o.Garbage)
+	}
+	if o.Secs != 0 {
+		return fmt.Sprintf("clock+%ds", o.Secs)
 	}
 	return "clock+61s"
 }
@@ -117,6 +121,8 @@ func c14Alphabet(full bool) []c14Op {
 		ops = append(ops, c14Op{Kind: "auth", Sess: 1, Claimed: "bob", Pw: c14DB["bob"], Chal: "cur"})
 	}
 	ops = append(ops, c14Op{Kind: "clock"})
+	// half the context lifetime: the context of the session is still there, whatever happened in it before
+	ops = append(ops, c14Op{Kind: "clock", Secs: 31})
 	return ops
 }
 
@@ -127,8 +133,8 @@ type c14Sess struct {
 	cur, prev         *ntlmc.Challenge
 	lastCur, lastPrev *ntlmc.Challenge
 	limbo             *ntlmc.Challenge // the challenge held before an undecodable message was refused: the property does not say whether such a message uses it up
-	fresh             bool // the last operation on this session was the negotiate that issued cur
-	aged              bool // clock advanced past the context lifetime since cur was issued
+	fresh             bool             // the last operation on this session was the negotiate that issued cur
+	aged              bool             // clock advanced past the context lifetime since cur was issued
 }
 
 // c14Run executes a history on a fresh verifier and judges every step.
@@ -151,7 +157,11 @@ func c14Run(hist []c14Op, rep *Report) (viol, detail string, trace []string) {
 	for i, op := range hist {
 		switch op.Kind {
 		case "clock":
-			vclock.Advance(61 * time.Second)
+			if op.Secs != 0 {
+				vclock.Advance(time.Duration(op.Secs) * time.Second)
+			} else {
+				vclock.Advance(61 * time.Second)
+			}
 			for _, s := range sess {
 				s.aged = true
 			}
@@ -262,11 +272,12 @@ func c14Run(hist []c14Op, rep *Report) (viol, detail string, trace []string) {
 }
 
 func c14(env *Env, rep *Report) {
-	rep.Rule = "every history up to depth d over an operation alphabet on two NTLM sessions: negotiate(s); authenticate(s, claimed user in {alice,bob,carol(empty password),dave(same password as alice),mallory(unknown),ALICE,admin\\alice,alice@admin,erin(password with a leading and a trailing blank)}, response keyed with {claimed user's configured password, a wrong password, the empty password, bob's password as bob, alice's password as alice}, challenge in {current of s, previous of s, current of the other session, zeros, none (zero-length)}); garbage(s, {not base64, empty, type 2, truncated type 3}); clock +61 s. " +
+	rep.Rule = "every history up to depth d over an operation alphabet on two NTLM sessions: negotiate(s); authenticate(s, claimed user in {alice,bob,carol(empty password),dave(same password as alice),mallory(unknown),ALICE,admin\\alice,alice@admin,erin(password with a leading and a trailing blank)}, response keyed with {claimed user's configured password, a wrong password, the empty password, bob's password as bob, alice's password as alice}, challenge in {current of s, previous of s, current of the other session, zeros, none (zero-length)}); garbage(s, {not base64, empty, type 2, truncated type 3}); clock +61 s; clock +31 s (inside the context lifetime); six longer histories that start an exchange over in a session whose context is 31 / 62 s old. " +
 		"quick: reduced alphabet (39 ops) to depth 3, full alphabet (255 ops) to depth 2; thorough: full alphabet to depth 3, reduced to depth 4. Each history is one execution against a fresh real verifier (cmd/auth/ntlm) with messages built by an independent NTLMv2 implementation. " +
 		"Oracle (three-valued): authenticated without a response keyed by the claimed user's configured non-empty password over the session's latest challenge => violation; honest exchange (negotiate then matching authenticate, nothing in between on that session, no clock jump) refused => violation; success must return exactly the claimed configured name; everything else (e.g. a second correct attempt after a failed one, or a correct response to the challenge that was current when an undecodable message was refused) is unspecified. distinct_nontrivial = histories executed."
 	rep.Assumptions = append(rep.Assumptions, "user database {alice:pw1, bob:pw2, carol:\"\", dave:pw1}", "no merging of histories: the verifier's hidden state (cached keys, contexts) is exactly what the property is about")
 	red, full := c14Alphabet(false), c14Alphabet(true)
+	rep.Rule = strings.Replace(strings.Replace(rep.Rule, "(39 ops)", fmt.Sprintf("(%d ops)", len(red)), 1), "(255 ops)", fmt.Sprintf("(%d ops)", len(full)), 1)
 	if env.Replay != nil {
 		var hist []c14Op
 		hs, _ := env.Replay["history"].([]any)
@@ -342,6 +353,32 @@ func c14(env *Env, rep *Report) {
 			enum(red, d)
 		}
 		enum(full, 2)
+	}
+	// longer histories around the clock: an exchange that starts over in a session whose context is 31 s old
+	// (after an abandoned negotiate, after a refused attempt, after both) is an honest exchange
+	if env.Shard == 0 || env.NShards == 1 {
+		neg, half := c14Op{Kind: "neg", Sess: 0}, c14Op{Kind: "clock", Secs: 31}
+		right := c14Op{Kind: "auth", Sess: 0, Claimed: "alice", Pw: c14DB["alice"], Chal: "cur"}
+		wrong := c14Op{Kind: "auth", Sess: 0, Claimed: "alice", Pw: "wrong", Chal: "cur"}
+		for _, hist := range [][]c14Op{
+			{neg, half, neg, right},
+			{neg, wrong, half, neg, right},
+			{neg, right, half, neg, right},
+			{neg, half, neg, wrong, neg, right},
+			{neg, half, half, neg, right},
+			{neg, wrong, half, half, neg, right},
+		} {
+			distinct++
+			var names []string
+			for _, o := range hist {
+				names = append(names, o.String())
+			}
+			v, d, _ := c14Run(hist, rep)
+			rep.outcome("clock-history " + v)
+			if v != "" {
+				rep.violate("C14/"+v, d, map[string]any{"engine": "seqx", "history": names})
+			}
+		}
 	}
 	rep.Bounds = map[string]any{"reduced_alphabet": len(red), "full_alphabet": len(full)}
 	rep.add("distinct", int64(distinct))
